@@ -63,24 +63,48 @@ Fixpoint wrap (ext cls nl : bool) (q : wst) (depth : nat) (s : list nat) : list 
         else if mr && (c =? c_rb) then c :: wrap ext cls nl (WB false false) depth s'
         else if c =? c_rb then c :: wrap ext cls nl (WT false) depth s'
         else if c =? c_lb then
-          let other :=
           if cls then
             match s' with
             | d :: s'' => if d =? c_colon then wrap ext cls nl (WC [d]) depth s'' else c :: wrap ext cls nl (WB false false) depth s'
             | [] => c :: wrap ext cls nl (WB false false) depth s'
             end
           else c :: wrap ext cls nl (WB false false) depth s'      (* emacs: no character classes, "[" is a member *)
-          in
-          match s' with
-          | d :: x :: e :: r :: s'' =>
-              (* the engine has no collating symbols: "[.x.]" is written as the character it names *)
-              if coll_at d x e r then x :: wrap ext cls nl (WB false false) depth s'' else other
-          | _ => other
-          end
         else c :: wrap ext cls nl (WB false false) depth s'
     | WC acc =>
         if c =? c_rb then emit_class (acc ++ [c]) ++ wrap ext cls nl (WB false false) depth s'
         else wrap ext cls nl (WC (acc ++ [c])) depth s'
+    end
+  end.
+
+(* ---- spell_collating: a collating symbol "[.x.]" or equivalence class "[=x=]" of a bracket expression, x a character with no
+   meaning of its own there, is written as x (the engine has neither construct); everything else is copied.  States: outside,
+   after a backslash, inside a bracket expression, inside "[:" up to the next "]" (where the syntax has classes). ---- *)
+Inductive cst := CT | CE | CB (may_caret may_rb : bool) | CC.
+Fixpoint collp (cls : bool) (q : cst) (s : list nat) : list nat :=
+  match s with
+  | [] => []
+  | c :: s' =>
+    match q with
+    | CT => if c =? c_bs then c :: collp cls CE s'
+            else if c =? c_lb then c :: collp cls (CB true true) s'
+            else c :: collp cls CT s'
+    | CE => c :: collp cls CT s'
+    | CB mc mr =>
+        if mc && (c =? c_caret) then c :: collp cls (CB false true) s'
+        else if mr && (c =? c_rb) then c :: collp cls (CB false false) s'
+        else if c =? c_rb then c :: collp cls CT s'
+        else if c =? c_lb then
+          let other :=
+            match s' with
+            | d :: _ => if cls && (d =? c_colon) then c :: collp cls CC s' else c :: collp cls (CB false false) s'
+            | [] => [c]
+            end in
+          match s' with
+          | d :: x :: e :: r :: s'' => if coll_at d x e r then x :: collp cls (CB false false) s'' else other
+          | _ => other
+          end
+        else c :: collp cls (CB false false) s'
+    | CC => if c =? c_rb then c :: collp cls (CB false false) s' else c :: collp cls CC s'
     end
   end.
 
@@ -131,8 +155,10 @@ Definition spell (gb pq nl : bool) (pattern : list nat) : list nat :=
 
 (* ext: posix-extended; cls: the syntax has character classes (all but emacs); nl: a newline is alternation (grep);
    gb: grep's brace; pq: posix-basic's "\+" and "\?" *)
+(* what is compiled first (to report errors against the pattern as given) and what inside_group starts from *)
+Definition spelled (cls nl gb pq : bool) (pattern : list nat) : list nat := spell gb pq nl (collp cls CT pattern).
 Definition inside_group (ext cls nl gb pq : bool) (pattern : list nat) : list nat :=
-  wrap ext cls nl (WT false) 0 (spell gb pq nl pattern).
+  wrap ext cls nl (WT false) 0 (spelled cls nl gb pq pattern).
 
 (* ---- how the text is read back: where groups open and close (POSIX extended).  A backslash takes the next character with it;
    a bracket expression runs from "[" (then "^" and "]" as members) to the next "]", a "[:" inside it to the next "]".
